@@ -485,6 +485,17 @@ func (h *Handler) lstat(path string) (fs.FileInfo, error) {
 	return h.Fs.Stat(path)
 }
 
+// isDeadSymlink tells if statErr says that path is a symlink which leads nowhere.
+func (h *Handler) isDeadSymlink(path string, statErr error) bool {
+	if !errors.Is(statErr, syscall.ENOTDIR) && !errors.Is(statErr, syscall.ELOOP) && !errors.Is(statErr, syscall.ENAMETOOLONG) {
+		return false
+	}
+
+	info, err := h.lstat(path)
+
+	return err == nil && info.Mode()&fs.ModeSymlink != 0
+}
+
 // fsOnly needed to detach all "optional" interfaces like afero.Lstater.
 type fsOnly struct{ afero.Fs }
 
@@ -496,9 +507,9 @@ func (h *Handler) HandleGetDirSize(ctx *Context, path string) (int64, error) {
 	// detach afero.Lstater interface to resolve symlinks in afero.Walk.
 	err := afero.Walk(&fsOnly{h.Fs}, path, func(path string, info fs.FileInfo, err error) error {
 		if err != nil {
-			// something that is not there (anymore) or dangling symlink has no size,
-			// but total without something that couldn't be read is not the size of directory
-			if !errors.Is(err, fs.ErrNotExist) {
+			// something that is not there (anymore) or symlink leading nowhere (to missing name, through a file,
+			// to itself, ...) has no size, but total without something that couldn't be read is not the size of directory
+			if !errors.Is(err, fs.ErrNotExist) && !h.isDeadSymlink(path, err) {
 				return err
 			}
 
